@@ -2627,9 +2627,20 @@ class TornOpen:
     runs afterwards) or "oserror" (the I/O layer raises OSError: the code goes on).  Every opening for writing is
     recorded as (group file before, text handed to write, characters that reached the file | "complete")."""
 
-    def __init__(self, env, w, cut, fault):
+    def __init__(self, env, w, cut, fault, answers=None):
         self.env, self.w, self.cut, self.fault = env, w, cut, fault
         self.n, self.dead, self.events, self.pending = 0, False, [], None
+        # `answers` = g: the torn opening is the first opening for writing reached once the server has issued g
+        # identifiers in the running operation (the write that follows the g-th answer), whatever its number
+        self.answers, self.fired = answers, False
+
+    def is_torn(self):
+        if self.answers is None:
+            return self.n == self.w
+        if not self.fired and len(self.env.server.accepted) >= self.answers:
+            self.fired = True
+            return True
+        return False
 
     def group_text(self):
         try:
@@ -2651,10 +2662,11 @@ class TornOpen:
             raise Kill()
         self.n += 1
         old = self.group_text()
-        if self.n == self.w and self.cut == "before":
+        torn = self.is_torn()
+        if torn and self.cut == "before":
             self.events.append([old, self.pending, 0])
             raise self.boom()
-        return _TornFile(self, old, open(path, mode, *a, **k), self.n == self.w)
+        return _TornFile(self, old, open(path, mode, *a, **k), torn)
 
 
 class _TornFile:
@@ -2767,7 +2779,12 @@ def run_tw(root, sc, impl, variant, lean, n_sweep=0, sweep_seed=0):
         jg = r.jg
         ids_before = [e["id"] for e in (env.read_file() or []) if e["id"] is not None]
         n_unsent = len([j for j in jg.remote_jobs if not j.was_sent])
-        to = TornOpen(env, torn["w"], torn["cut"], torn["fault"])
+        mode = torn.get("mode") or {"rerun": False, "replace": False, "seq": False}
+        n_active = len([j for j in jg.remote_jobs if j.was_sent and not j._job_status.completed])
+        failed_ids = [idnum(j.id) for j in jg.remote_jobs if j._job_status.failed and j.was_sent]
+        n_failed = len([j for j in jg.remote_jobs if j._job_status.failed])
+        launch_sts = []
+        to = TornOpen(env, torn["w"], torn["cut"], torn["fault"], torn.get("g"))
         pd = env.JobGroup._PERSISTENT_DATA
         real_write = pd.write_file
 
@@ -2795,8 +2812,20 @@ def run_tw(root, sc, impl, variant, lean, n_sweep=0, sweep_seed=0):
                     else:
                         jg.add(job, max_samples=torn["kw"])
                 elif kind == "launch":
-                    srv.script([{"accept": 0}] * n_unsent, [])
-                    jg.run_parallel()
+                    # a rerun first refreshes the statuses (jobs still running stay so); the sequential mode waits
+                    # for every job it sent: one final status per job
+                    n_out = n_failed if mode["rerun"] else n_unsent
+                    launch_sts = (["RUNNING"] * (2 * n_active + 1) if mode["rerun"] else []) + \
+                        (["SUCCESS"] * n_out if mode["seq"] else [])
+                    srv.script([{"accept": 0}] * n_out, launch_sts)
+                    if mode["rerun"] and mode["seq"]:
+                        jg.rerun_failed_sequential(0, replace_failed_jobs=mode["replace"])
+                    elif mode["rerun"]:
+                        jg.rerun_failed_parallel(replace_failed_jobs=mode["replace"])
+                    elif mode["seq"]:
+                        jg.run_sequential(0)
+                    else:
+                        jg.run_parallel()
                 elif kind == "progress":
                     srv.script([], torn["sts"])
                     jg.progress()
@@ -2855,18 +2884,24 @@ def run_tw(root, sc, impl, variant, lean, n_sweep=0, sweep_seed=0):
         if torn["kind"] == "launch" and torn["fault"] == "kill" and torn["cut"] == "before":
             acc = list(srv.accepted)
             on_disk = [e["id"] for e in (env.read_file() or []) if e["id"] is not None]
-            out["info"]["crash_after_answer"] = True
-            if len(acc) != torn["w"] or any(k not in on_disk for k in acc[:-1]) or acc[-1] in on_disk \
-                    or any(k not in on_disk for k in ids_before):
+            g = torn.get("g", torn["w"])
+            out["info"]["crash_after_answer"] = ("rerun-" + ("replace" if mode["replace"] else "append") if mode["rerun"]
+                                                 else "run") + ("-sequential" if mode["seq"] else "-parallel")
+            # identifiers of failed jobs already replaced by their rerun (and saved) are retired; the failed job whose
+            # rerun is in flight is still in the file
+            retired = failed_ids[:g - 1] if mode["rerun"] and mode["replace"] else []
+            if len(acc) != g or any(k not in on_disk for k in acc[:-1]) or acc[-1] in on_disk \
+                    or any(k not in on_disk for k in ids_before if k not in retired):
                 bad.append(("violation", "accepted-id-lost",
-                            f"run_parallel() on {n_unsent} unsent jobs, the process dying between the server's answer number "
-                            f"{torn['w']} and the write that follows: the server issued {acc}, the file held {ids_before} "
+                            f"{out['info']['crash_after_answer']} launch on {n_unsent} unsent / {n_failed} failed jobs, the "
+                            f"process dying between the server's answer number "
+                            f"{g} and the write that follows: the server issued {acc}, the file held {ids_before} "
                             f"before and holds {on_disk}: an identifier other than the one in flight is missing"))
                 return out
-            lop = {"op": "launch", "rerun": False, "replace": False, "seq": False,
-                   "outs": [{"accept": 0}] * (torn["w"] - 1), "sts": []}
+            lop = {"op": "launch", "rerun": mode["rerun"], "replace": mode["replace"], "seq": mode["seq"],
+                   "outs": [{"accept": 0}] * (g - 1), "sts": list(launch_sts)}
             rep = lean.ask({"variant": variant, "dir": True, "ops": r.lean_ops + [lop], "caa": 0})
-            issued = [k for k, _p in srv.all_created][::-1]
+            issued = ([k for k, _p in srv.all_created] + (acc if mode["rerun"] else []))[::-1]
             if "err" in rep or rep["caa"]["disk_ids"] != on_disk or rep["caa"]["issued"] != issued \
                     or not rep["caa"]["disk_same"]:
                 bad.append(("broken", "model-vs-code-crash-after-answer",
@@ -2898,8 +2933,10 @@ def run_tw(root, sc, impl, variant, lean, n_sweep=0, sweep_seed=0):
     return out
 
 
-def gen_tw(rng, chk, root):
-    """a prefix built online (adds, parallel launches that are all accepted, status refreshes), then one torn operation"""
+def gen_tw(rng, chk, root, force=None):
+    """a prefix built online (adds, parallel launches that are all accepted, status refreshes), then one torn operation;
+    `force` = "rerun-replace" | "rerun-append" | "rerun-seq" | "seq": the torn operation is a rerun / a sequential
+    launch stopped between the last answer of the server and the write that follows it"""
     runner = Runner(root, True, gen_name(rng))
     for _ in range(rng.randint(0, 5)):
         n, unsent, active, failed, ids = group_state(runner)
@@ -2913,10 +2950,45 @@ def gen_tw(rng, chk, root):
         op["dt"] = rng.choice([0, 1])
         runner.step(op)
     n, unsent, active, failed, ids = group_state(runner)
-    kinds = ["create", "add", "add"] + (["launch"] * 3 if unsent else []) + (["progress"] * 2 if active else [])
+    if force is not None or rng.random() < 0.3:
+        # make sure there is something to launch or to rerun: sent jobs that failed, and unsent ones
+        if (force or "").startswith("rerun") or (force is None and rng.random() < 0.6):
+            if n == 0 or (not active and not failed and not unsent):
+                runner.step(dict(gen_job(rng, chk, "plain", GenState(ids, runner.env.server.skipped, [])), dt=0))
+                runner.step(dict(gen_job(rng, chk, rng.choice(TW_KINDS), GenState(ids, runner.env.server.skipped, [])), dt=0))
+                n, unsent, active, failed, ids = group_state(runner)
+            if not active and not failed and unsent:
+                runner.step({"op": "launch", "rerun": False, "replace": False, "seq": False,
+                             "outs": [{"accept": 0}] * unsent, "sts": [], "dt": 0})
+                n, unsent, active, failed, ids = group_state(runner)
+            if active and (not failed or rng.random() < 0.5):
+                runner.step({"op": "progress", "dt": 1,
+                             "sts": [rng.choice(["ERROR", "ERROR", "CANCELED", "RUNNING"]) for _ in range(active - 1)] + ["ERROR"]})
+        else:
+            for _ in range(2 if force or not unsent else rng.randint(1, 2)):
+                n, unsent, active, failed, ids = group_state(runner)
+                runner.step(dict(gen_job(rng, chk, rng.choice(TW_KINDS), GenState(ids, runner.env.server.skipped, [])), dt=0))
+        n, unsent, active, failed, ids = group_state(runner)
+    kinds = ["create", "add", "add"] + (["launch"] * 3 if unsent else []) + (["progress"] * 2 if active else []) + \
+        (["relaunch"] * 4 if failed else [])
     kind = rng.choice(kinds)
+    if (force or "").startswith("rerun") and failed:
+        kind = "relaunch"
+    elif force == "seq" and unsent:
+        kind = "launch"
     torn = {"kind": kind, "w": 1, "fault": rng.choice(["kill", "kill", "oserror"]),
             "cut": rng.choice(TW_CUTS + [round(rng.uniform(0.02, 0.98), 3)] * 3)}
+    if kind == "relaunch":
+        # the process dies between the server's answer to the g-th rerun request and the write that follows
+        torn.update({"kind": "launch", "cut": "before", "fault": "kill",
+                     "g": failed if force is not None else rng.randint(1, failed),
+                     "mode": {"rerun": True, "replace": force != "rerun-append" if force else rng.random() < 0.5,
+                              "seq": force == "rerun-seq" if force else rng.random() < 0.4}})
+        kind = "rerun"
+    elif kind == "launch" and (force == "seq" or rng.random() < 0.35):
+        torn.update({"cut": "before", "fault": "kill", "g": unsent if force is not None else rng.randint(1, unsent),
+                     "mode": {"rerun": False, "replace": False, "seq": True}})
+        kind = "seq"
     if kind == "add":
         op = gen_job(rng, chk, rng.choice(TW_KINDS), GenState(ids, runner.env.server.skipped, []))
         torn["job"], torn["kw"] = op["job"], op["kw"]
@@ -3001,6 +3073,12 @@ def handle_tw(chk, root, sc, impl, variant, n_sweep):
         chk.count("tw_reopen", str(info.get("reopen")))
         if info.get("crash_after_answer"):
             chk.branch("tw-crash-after-answer")
+            chk.branch("tw-caa-" + info["crash_after_answer"])
+            if info["crash_after_answer"].startswith("rerun") and info["crash_after_answer"].endswith("sequential"):
+                chk.branch("tw-caa-rerun-sequential")
+            chk.count("tw_crash_after_answer", info["crash_after_answer"])
+            if torn.get("g", torn["w"]) > 1:
+                chk.branch("tw-caa-later-answer")
         if info.get("sweep"):
             chk.branch("tw-sweep")
             chk.count("tw_sweep_prefixes", "total", info["sweep"])
@@ -3019,6 +3097,234 @@ def handle_tw(chk, root, sc, impl, variant, n_sweep):
         chk.fail(kind, sig, what[:900], {"tw": shrink_tw(chk, root, sc, impl, variant, sig), "impl": impl})
 
 
+# ------------------------------------------------------------------------------------------------
+# two JobGroup objects of one name alive at the same time (model: PM.C19.Conc, `Model/C19Conc.lean`)
+# ------------------------------------------------------------------------------------------------
+CONC_KINDS = ["plain", "plain", "ctx", "cmd", "ext", "dup", "sampler-probs", "body-json", "presets"]
+SIG_CONC = "model-vs-code-two-objects"
+
+
+def conc_disc(acts):
+    """the discipline of the model (`Conc.disc false`): an object that takes over starts by re-opening the group"""
+    prev = 0
+    for a in acts:
+        if a["h"] != prev and a["op"]["op"] != "reopen":
+            return False
+        prev = a["h"]
+    return True
+
+
+class ConcRun:
+    """Two real JobGroup objects of one name driven alternately through one Runner (same directory, same scripted
+    server).  Object 0 is constructed first; object 1's constructor runs when it is first used.  After every
+    action: result, view, the acting object's list, the file, the waiting object's list."""
+
+    def __init__(self, root, name):
+        self.r = Runner(root, True, name)
+        self.objs = {0: self.r.jg, 1: None}
+        self.acts, self.steps, self.findings = [], [], []
+        self.accepted, self.replaced = [], False
+        self.skipped = None
+
+    def use(self, h):
+        """make object h the one the Runner drives (constructing it if it does not exist yet)"""
+        env = self.r.env
+        if self.objs[h] is None:
+            with warnings.catch_warnings():
+                warnings.simplefilter("ignore")
+                self.objs[h] = env.JobGroup(env.group)
+        self.r.jg = self.objs[h]
+        return self.r.jg
+
+    def act(self, h, op):
+        r, env = self.r, self.r.env
+        if self.skipped or r.dead:
+            return
+        self.use(h)
+        mark = len(r.oracle)
+        r.step(copy.deepcopy(op))
+        self.objs[h] = r.jg
+        self.acts.append({"h": h, "op": op})
+        snap = r.steps[-1]
+        if snap["res"] in ("killed", "crashed", "dead"):
+            self.skipped = "script-ran-out"      # both objects of a process die together: not a two-object history
+            return
+        other = self.objs[1 - h]
+        snap = dict(snap, who=h, other=None if other is None else env.mem_view(other))
+        self.steps.append(snap)
+        self.accepted += list(env.server.accepted)
+        if op["op"] == "launch" and op["rerun"] and op["replace"]:
+            self.replaced = True
+        if conc_disc(self.acts):
+            # direct oracle (independent of Lean): under the discipline the property holds for the acting object —
+            # every check the single-object families make after an operation, plus: no identifier issued to either
+            # object is missing from the file (unless a rerun replaced its job)
+            for (t, sig, what) in r.oracle[mark:]:
+                self.findings.append(("violation", sig, f"two objects of one name, each re-opening the group when it "
+                                      f"takes over; action {len(self.acts) - 1} (object {h}, {describe_op(op)}): {what}"))
+            if snap["disk"] is not None and not self.replaced:
+                on_disk = [e["id"] for e in snap["disk"]]
+                lost = [k for k in self.accepted if k not in on_disk]
+                if lost:
+                    self.findings.append(("violation", "accepted-id-lost",
+                                          f"two objects of one name, each re-opening the group when it takes over; after "
+                                          f"action {len(self.acts) - 1} (object {h}, {describe_op(op)}) the identifiers {lost} "
+                                          f"issued by the server are not in the file (file: {on_disk})"))
+
+    def finish(self):
+        sc = {"name": self.r.name, "acts": self.acts}
+        lean_acts = [{"h": a["h"], "op": lop} for a, lop in zip(self.acts, self.r.lean_ops)]
+        self.r.finish()
+        return sc, {"steps": self.steps, "lean_acts": lean_acts, "findings": self.findings, "skipped": self.skipped}
+
+
+def run_conc(root, sc):
+    cr = ConcRun(root, sc.get("name", GROUP))
+    for a in sc["acts"]:
+        cr.act(a["h"], copy.deepcopy(a["op"]))
+    return cr.finish()[1]
+
+
+def judge_conc(chk, root, sc, variant, real=None):
+    """-> (findings, real)"""
+    real = real if real is not None else run_conc(root, sc)
+    bad = list(real["findings"])
+    if real["skipped"] or bad:
+        return bad, real
+    rep = chk.lean.ask({"conc": {"variant": variant, "dir": True, "acts": real["lean_acts"]}})
+    if "err" in rep:
+        return [("broken", SIG_CONC, f"the model rejected the history: {rep['err']}")], real
+    if rep["disc"] != conc_disc(sc["acts"]):
+        return [("broken", SIG_CONC, f"discipline flag differs: model {rep['disc']}")], real
+    norm = (lambda x: x) if variant["ctx"] else strip_ctx
+    proj = lambda l: None if l is None else [{k: j[k] for k in ("id", "st", "hd", "name", "res", "dp")} for j in l]   # noqa: E731
+    for t, (r_, m) in enumerate(zip(real["steps"], rep["steps"])):
+        a = sc["acts"][t]
+        where = f"action {t} (object {a['h']}, {describe_op(a['op'])})"
+        d = None
+        if r_["res"] != m["res"]:
+            d = f"result differs: real {r_['res']} model {m['res']}"
+        elif r_["view"] != m["view"]:
+            d = f"view differs: real {r_['view']} model {m['view']}"
+        elif r_["who"] != m["who"]:
+            d = f"acting object differs: model {m['who']}"
+        elif r_["mem"] != proj(m["mem"]):
+            d = f"the acting object's list differs: real {r_['mem']} model {proj(m['mem'])}"
+        elif norm(r_["disk"]) != norm(m["disk"]):
+            d = f"file differs: real {r_['disk']} model {m['disk']}"
+        elif r_["other"] != proj(m["other"]):
+            d = f"the waiting object's list differs: real {r_['other']} model {proj(m['other'])}"
+        if d:
+            return [("broken", SIG_CONC, f"two objects of one name, {where}: {d}")], real
+    return [], real
+
+
+def shrink_conc(chk, root, sc, variant, sig):
+    cur = copy.deepcopy(sc)
+    changed = True
+    while changed:
+        changed = False
+        for i in range(len(cur["acts"]) - 1, -1, -1):
+            cand = copy.deepcopy(cur)
+            del cand["acts"][i]
+            try:
+                if any(s_ == sig for (_k, s_, _w) in judge_conc(chk, root, cand, variant)[0]):
+                    cur, changed = cand, True
+                    break
+            except Exception:   # noqa: BLE001 — a shortened history need not be a legal one
+                continue
+    return cur
+
+
+def gen_conc(rng, chk, root):
+    """built online: 3-10 actions of two objects (adds of 9 kinds of job incl. jobs sent outside and identifiers the
+    OTHER object holds, launches with refusals, reruns, status refreshes, re-openings); half of the histories obey
+    the re-open discipline, half do not"""
+    cr = ConcRun(root, gen_name(rng))
+    disciplined = rng.random() < 0.5
+    prev = 0
+    for _ in range(rng.randint(3, 10)):
+        if cr.skipped or cr.r.dead:
+            break
+        h = prev if rng.random() < 0.5 else 1 - prev
+        fresh = cr.objs[h] is None
+        cr.use(h)
+        n, unsent, active, failed, ids = group_state(cr.r)
+        if (h != prev and disciplined) or (fresh and rng.random() < 0.6):
+            op = {"op": "reopen"}
+        else:
+            what = rng.choice(["add", "add", "add", "launch", "launch", "progress", "rerun", "reopen", "list"])
+            if what == "launch" and not unsent:
+                what = "add"
+            if what == "rerun" and not (failed or active):
+                what = "progress" if active else "add"
+            if what == "add":
+                oth = cr.objs[1 - h]
+                oids = [] if oth is None else [idnum(j.id) for j in oth.remote_jobs if j.was_sent]
+                op = gen_job(rng, chk, rng.choice(CONC_KINDS), GenState(sorted(set(ids + oids)), cr.r.env.server.skipped, []))
+            elif what == "launch":
+                pos = rng.randint(0, unsent + 2)
+                outs = ["refuse" if i == pos else {"accept": rng.choice([0, 0, 1])} for i in range(unsent)]
+                op = {"op": "launch", "rerun": False, "replace": False, "seq": False, "outs": outs, "sts": []}
+            elif what == "rerun":
+                op = {"op": "launch", "rerun": True, "replace": rng.random() < 0.5, "seq": False,
+                      "outs": [{"accept": 0}] * (failed + active), "sts": [rand_status(rng) for _ in range(2 * active + 1)]}
+            elif what == "progress":
+                op = {"op": "progress", "sts": [rand_status(rng) for _ in range(active + 1)]}
+            elif what == "list":
+                op = {"op": "list", "kind": "unsent", "sts": []}
+            else:
+                op = {"op": "reopen"}
+        op["dt"] = rng.choice([0, 1])
+        cr.act(h, op)
+        prev = h
+    return cr.finish()
+
+
+def handle_conc(chk, root, sc, variant, real=None):
+    bad, real = judge_conc(chk, root, sc, variant, real)
+    acts = sc["acts"]
+    disc = conc_disc(acts)
+    chk.case(("conc", disc, tuple((a["h"], a["op"]["op"]) for a in acts)), nontrivial=not real["skipped"] and len(acts) > 1)
+    if real["skipped"]:
+        chk.count("conc_skipped", real["skipped"])
+    else:
+        chk.branch("conc-scenario")
+        chk.count("conc_histories", "disciplined" if disc else "undisciplined")
+        switches = sum(1 for a, b in zip(acts, acts[1:]) if a["h"] != b["h"])
+        if disc and switches >= 2:
+            chk.branch("conc-disciplined-handover")
+        for t, (a, st) in enumerate(zip(acts, real["steps"])):
+            if t == 0 or acts[t - 1]["h"] == a["h"] or a["op"]["op"] == "reopen":
+                continue
+            # a stale object acts: what the file is afterwards (observation; the model must agree, nothing is judged)
+            img = lambda l: None if l is None else [(j["id"], j["st"] if j["id"] is not None else None) for j in l]   # noqa: E731
+            dsk = None if st["disk"] is None else [(e["id"], e["status"]) for e in st["disk"]]
+            is_ = "actor" if dsk == img(st["mem"]) else ("other" if dsk == img(st["other"]) else "neither")
+            chk.count("conc_file_after_stale_action", is_)
+            chk.branch("conc-stale-action")
+            prev_disk = real["steps"][t - 1]["disk"]
+            if st["disk"] != prev_disk and prev_disk is not None and st["disk"] is not None:
+                chk.branch("conc-stale-write")
+                lost = [e["id"] for e in prev_disk if e["id"] is not None and e["id"] not in [x["id"] for x in st["disk"]]]
+                if lost:
+                    chk.branch("conc-stale-write-loses-id")
+                    chk.count("out_of_scope_observations", "stale-object-write-loses-accepted-id")
+    for kind, sig, what in bad:
+        seen = chk.extra.setdefault("failing_histories_per_signature", {})
+        seen[sig] = seen.get(sig, 0) + 1
+        if seen[sig] > 1:
+            continue
+        chk.fail(kind, sig, what[:900], {"conc": shrink_conc(chk, root, sc, variant, sig)})
+
+
+CONC_WITNESS = {"acts": [
+    {"h": 1, "op": {"op": "reopen"}},
+    {"h": 0, "op": {"op": "add", "job": dict(PLAIN), "kw": None}},
+    {"h": 0, "op": {"op": "launch", "rerun": False, "replace": False, "seq": False, "outs": [{"accept": 0}], "sts": []}},
+    {"h": 1, "op": {"op": "add", "job": dict(PLAIN, name=2), "kw": None}}]}
+
+
 def setup_perceval():
     warnings.simplefilter("ignore")
     try:
@@ -3035,7 +3341,7 @@ def load_corpus():
     for p in sorted(glob.glob(os.path.join(core.VERIF, "corpus", "C19", "*.json"))):
         d = json.load(open(p))
         out.append(("fs", d["fs"]) if "fs" in d else ("ns", d["ns"]) if "ns" in d else ("tw", d["tw"]) if "tw" in d
-                   else ("history", d["history"]))
+                   else ("conc", d["conc"]) if "conc" in d else ("history", d["history"]))
     return out
 
 
@@ -3129,7 +3435,13 @@ def run(chk: core.Check):
                              # the write that follows it
                              "witness-tw", "tw-scenario", "tw-create", "tw-add", "tw-launch", "tw-progress", "tw-kill",
                              "tw-oserror", "tw-cut-before", "tw-cut-opened", "tw-cut-inner", "tw-cut-full",
-                             "tw-crash-after-answer", "tw-sweep", "tw-later-write"]
+                             "tw-crash-after-answer", "tw-sweep", "tw-later-write",
+                             # third extension: the crash after the answer in reruns and in the sequential mode; two
+                             # objects of one name
+                             "tw-caa-run-parallel", "tw-caa-run-sequential", "tw-caa-rerun-replace-parallel",
+                             "tw-caa-rerun-append-parallel", "tw-caa-rerun-sequential", "tw-caa-later-answer",
+                             "witness-conc", "conc-scenario", "conc-disciplined-handover", "conc-stale-action",
+                             "conc-stale-write", "conc-stale-write-loses-id"]
     setup_perceval()
     chk.lean = core.LeanDriver("C19")
     root = tempfile.mkdtemp(prefix="run-", dir=_ROOT)
@@ -3155,6 +3467,8 @@ def run(chk: core.Check):
                 handle_fs(chk, root, item)
             elif kind == "tw":
                 handle_tw(chk, root, item, impl, variant, chk.pick(150, 400))
+            elif kind == "conc":
+                handle_conc(chk, root, item, variant)
             elif kind == "ns":
                 if dots_ok or not any(n.strip(".") == "" for n in item["names"]):
                     handle_ns(chk, root, item)
@@ -3162,10 +3476,20 @@ def run(chk: core.Check):
                 handle_batch(chk, root, [item], variant)
         # torn writes, I/O errors inside a write, a crash between the server's answer and the write that follows
         t0 = _time.process_time(), _time.time()
-        for _ in range(chk.pick(70, 300)):
-            handle_tw(chk, root, gen_tw(chk.rng, chk, root), impl, variant, chk.pick(150, 300))
+        for i_tw in range(chk.pick(70, 300)):
+            force = ("rerun-replace", "seq", "rerun-append", "rerun-seq")[i_tw % 4] if i_tw < chk.pick(8, 16) else None
+            handle_tw(chk, root, gen_tw(chk.rng, chk, root, force), impl, variant, chk.pick(150, 300))
         chk.extra["torn_write_family_seconds"] = {"cpu_python": round(_time.process_time() - t0[0], 1),
                                                   "wall": round(_time.time() - t0[1], 1)}
+        # two objects of one name acting alternately
+        t0 = _time.process_time(), _time.time()
+        handle_conc(chk, root, copy.deepcopy(CONC_WITNESS), variant)
+        chk.branch("witness-conc")
+        for _ in range(chk.pick(150, 800)):
+            sc_, real_ = gen_conc(chk.rng, chk, root)
+            handle_conc(chk, root, sc_, variant, real_)
+        chk.extra["two_objects_family_seconds"] = {"cpu_python": round(_time.process_time() - t0[0], 1),
+                                                   "wall": round(_time.time() - t0[1], 1)}
         # listing and deleting the group files of a directory through JobGroup's own entry points
         for _ in range(chk.pick(200, 1200)):
             handle_ns(chk, root, gen_ns_script(chk.rng, chk, dots_ok))
@@ -3266,6 +3590,13 @@ def replay(chk, data):
             for impl in ([data["replay"]["impl"]] if "impl" in data["replay"] else ["inPlace"]):
                 for kind, sig, what in judge_tw(chk, root, sc, impl, variant, 150)["findings"]:
                     chk.fail(kind, sig, what, {"tw": sc, "impl": impl})
+            return
+        if "conc" in data["replay"]:
+            sc = data["replay"]["conc"]
+            variant = detect_variant(core.Check("C19", chk.tier, chk.seed), root)
+            chk.case(("conc", len(sc["acts"])), True)
+            for kind, sig, what in judge_conc(chk, root, sc, variant)[0]:
+                chk.fail(kind, sig, what, {"conc": sc})
             return
         if "ns" in data["replay"]:
             script = data["replay"]["ns"]
